@@ -1,5 +1,6 @@
 import PcbV.Model.IntOps
 import PcbV.Gen.Translated
+import PcbV.Lemmas.PyIntLemmas
 /-
   C02 — Integer operators follow 16-bit two's-complement semantics.
   Property theorems about `PcbV.IntOps` (the transcription of numbers.py:Integer and of the
@@ -317,5 +318,114 @@ theorem translated_imod_eq (a b : Nat) :
 
 example : Gen.Translated.idivCore (-7) 2 = -3 ∧ Gen.Translated.imodCore (-7) 2 = -1 ∧
     Gen.Translated.idivCore 7 (-2) = -3 ∧ Gen.Translated.imodCore 7 (-2) = 1 := by decide
+
+/-! ### tie to the source, part 2: the byte-level code of `ineg`, `iadd`, `gt`
+
+`PcbV.Gen.Translated.inegCore / iaddCore / igtCore` are regenerated from the Python AST of
+`Integer.ineg`, `Integer.iadd` and the integer part of `Integer.gt` (gen/tables_py2lean.py): the bytes
+`bytearray(self._buffer)[0|1]`, `bytearray(rhs._buffer)[0|1]` are the parameters `a0 a1 b0 b1`, the store
+`self._buffer[:] = bytearray([lo, hi])` is the value `lo + 256*hi`, `raise BASICError(OVERFLOW)` is the
+value `-OVERFLOW`; `^ &` are the two's-complement operators of `PcbV.PyInt`.  The theorems say that the
+hand-written `ineg`, `iadd`, `gt` (subject of `ineg_spec`, `iadd_spec`, `gt_iff`) are exactly that code
+on every 16-bit pattern. -/
+
+theorem translated_intbytes_supported :
+    Gen.Translated.inegCore_supported = true ∧ Gen.Translated.iaddCore_supported = true ∧
+    Gen.Translated.igtCore_supported = true := by decide
+
+/-- result convention of the translated in-place methods: `-n` = BASIC error n, else the new 16-bit pattern -/
+def decodeResult (n : Int) : R Nat := if n < 0 then .error (-n).toNat else .ok n.toNat
+
+theorem translated_ineg_eq (a : Nat) (ha : a < 65536) :
+    ineg a = decodeResult (Gen.Translated.inegCore ((a % 256 : Nat) : Int) ((a / 256 : Nat) : Int)) := by
+  have h0 : (0 : Int) ≤ ((a % 256 : Nat) : Int) := Int.natCast_nonneg _
+  have h0' : ((a % 256 : Nat) : Int) < 256 := by omega
+  have h1 : (0 : Int) ≤ ((a / 256 : Nat) : Int) := Int.natCast_nonneg _
+  have h1' : ((a / 256 : Nat) : Int) < 256 := by omega
+  unfold ineg Gen.Translated.inegCore decodeResult
+  simp only [PyIntLemmas.xor_255 _ h0 h0', PyIntLemmas.xor_255 _ h1 h1']
+  by_cases hov : a = 32768
+  · subst hov; decide
+  · have hd : ¬ ((((a % 256 : Nat) : Int) = 0) ∧ (((a / 256 : Nat) : Int) = 128)) := by omega
+    simp only [hov, if_false, Bool.and_eq_true, decide_eq_true_eq, hd, overflow]
+    by_cases hc : a % 256 = 0
+    · have e1 : (255 : Int) - ((a % 256 : Nat) : Int) + 1 > 255 := by omega
+      have e2 : 255 - a % 256 + 1 > 255 := by omega
+      simp only [e1, e2, decide_true, if_true]
+      rw [PyIntLemmas.land_255 _ (by omega)]
+      have : ¬ ((255 : Int) - ↑(a % 256) + 1 - 256 + 256 * ((255 - ↑(a / 256) + 1) % 256) < 0) := by omega
+      simp only [this, if_false, Except.ok.injEq]
+      omega
+    · have e1 : ¬ ((255 : Int) - ((a % 256 : Nat) : Int) + 1 > 255) := by omega
+      have e2 : ¬ (255 - a % 256 + 1 > 255) := by omega
+      simp only [e1, e2, decide_false, if_false, Bool.false_eq_true]
+      rw [PyIntLemmas.land_255 _ (by omega)]
+      have : ¬ ((255 : Int) - ↑(a % 256) + 1 + 256 * ((255 - ↑(a / 256)) % 256) < 0) := by omega
+      simp only [this, if_false, Except.ok.injEq]
+      omega
+
+theorem translated_iadd_eq (a b : Nat) (ha : a < 65536) (hb : b < 65536) :
+    iadd a b = decodeResult (Gen.Translated.iaddCore ((a % 256 : Nat) : Int) ((a / 256 : Nat) : Int)
+      ((b % 256 : Nat) : Int) ((b / 256 : Nat) : Int)) := by
+  unfold iadd iaddWith Gen.Translated.iaddCore decodeResult
+  simp only []
+  have hx0 : a % 256 < 256 := by omega
+  have hx1 : a / 256 < 256 := by omega
+  have hy0 : b % 256 < 256 := by omega
+  have hy1 : b / 256 < 256 := by omega
+  generalize a % 256 = x0 at *
+  generalize a / 256 = x1 at *
+  generalize b % 256 = y0 at *
+  generalize b / 256 = y1 at *
+  clear ha hb
+  by_cases hc : x0 + y0 > 255
+  · have hc' : (x0 : Int) + (y0 : Int) > 255 := by omega
+    simp only [hc, hc', decide_true, if_true]
+    rw [PyIntLemmas.land_255 _ (by omega)]
+    have em : ((x1 : Int) + (y1 : Int) + 1) % 256 = (((x1 + y1 + 1) % 256 : Nat) : Int) := by omega
+    rw [em]
+    generalize hm : (x1 + y1 + 1) % 256 = m
+    have hm' : m < 256 := by omega
+    have q1 : ((127 : Int) < (x1 : Int)) ↔ (x1 > 127) := by omega
+    have q2 : ((127 : Int) < (y1 : Int)) ↔ (y1 > 127) := by omega
+    have q3 : ((127 : Int) < (m : Int)) ↔ (m > 127) := by omega
+    by_cases p1 : x1 > 127 <;> by_cases p2 : y1 > 127 <;> by_cases p3 : m > 127 <;>
+      (simp [q1, q2, q3, p1, p2, p3, overflow, PcbV.Gen.E.overflow] <;>
+        (rw [if_neg (by omega)]; simp only [Except.ok.injEq]; omega))
+  · have hc' : ¬ ((x0 : Int) + (y0 : Int) > 255) := by omega
+    simp only [hc, hc', decide_false, if_false, Bool.false_eq_true]
+    rw [PyIntLemmas.land_255 _ (by omega)]
+    have em : ((x1 : Int) + (y1 : Int)) % 256 = (((x1 + y1) % 256 : Nat) : Int) := by omega
+    rw [em]
+    generalize hm : (x1 + y1) % 256 = m
+    have hm' : m < 256 := by omega
+    have q1 : ((127 : Int) < (x1 : Int)) ↔ (x1 > 127) := by omega
+    have q2 : ((127 : Int) < (y1 : Int)) ↔ (y1 > 127) := by omega
+    have q3 : ((127 : Int) < (m : Int)) ↔ (m > 127) := by omega
+    by_cases p1 : x1 > 127 <;> by_cases p2 : y1 > 127 <;> by_cases p3 : m > 127 <;>
+      (simp [q1, q2, q3, p1, p2, p3, overflow, PcbV.Gen.E.overflow] <;>
+        (rw [if_neg (by omega)]; simp only [Except.ok.injEq]; omega))
+
+theorem translated_igt_eq (a b : Nat) (ha : a < 65536) (hb : b < 65536) :
+    gt a b = Gen.Translated.igtCore ((a % 256 : Nat) : Int) ((a / 256 : Nat) : Int)
+      ((b % 256 : Nat) : Int) ((b / 256 : Nat) : Int) := by
+  have a1 : (0 : Int) ≤ ((a / 256 : Nat) : Int) ∧ ((a / 256 : Nat) : Int) < 256 := by omega
+  have b1 : (0 : Int) ≤ ((b / 256 : Nat) : Int) ∧ ((b / 256 : Nat) : Int) < 256 := by omega
+  unfold gt Gen.Translated.igtCore
+  simp only [PyIntLemmas.land_128 _ a1.1 a1.2, PyIntLemmas.land_128 _ b1.1 b1.2,
+    PyIntLemmas.land_127 _ a1.1, PyIntLemmas.land_127 _ b1.1]
+  have e1 : ((a / 256 : Nat) : Int) % 128 = ((a / 256 % 128 : Nat) : Int) := by omega
+  have e2 : ((b / 256 : Nat) : Int) % 128 = ((b / 256 % 128 : Nat) : Int) := by omega
+  rw [e1, e2]
+  generalize a % 256 = x0
+  generalize b % 256 = y0
+  generalize a / 256 % 128 = xm
+  generalize b / 256 % 128 = ym
+  generalize a / 256 = x1
+  generalize b / 256 = y1
+  by_cases p1 : x1 ≥ 128 <;> by_cases p2 : y1 ≥ 128 <;>
+    by_cases p3 : xm > ym <;> by_cases p4 : xm < ym <;>
+    by_cases p5 : x0 > y0 <;>
+    simp [p1, p2, p3, p4, p5] <;> omega
 
 end PcbV.C02
